@@ -217,7 +217,7 @@ def generate(tier, sd):
     return res, gstats
 
 
-QUICK_CAPS = {"OpGrid": 260, "TemplGen": 400, "ProgGen-leansim": 130, "ProgGen-lean": 260, "ProgGen-bfs": 480, "ProgGen-sim": 560}
+QUICK_CAPS = {"OpGrid": 180, "TemplGen": 400, "ProgGen-leansim": 130, "ProgGen-lean": 260, "ProgGen-bfs": 480, "ProgGen-sim": 560}
 
 
 def programs(pid, tier, sd):
